@@ -541,17 +541,18 @@ _KERNEL_UNITS = dict(loading_basis="molar", loading_unit="mmol", material_basis=
                      pressure_mode="relative", pressure_unit=None)
 
 
-def _iso(p, L, branch):
-    """Point isotherm in the kernel's own units (relative pressure, mmol/g). For branch 'des' the data of interest is
-    the desorption leg (descending pressures) behind an unrelated adsorption leg."""
+def _iso(p, L, branch, units=None):
+    """Point isotherm in the kernel's own units (relative pressure, mmol/g) unless `units` says otherwise. For branch
+    'des' the data of interest is the desorption leg (descending pressures) behind an unrelated adsorption leg."""
+    units = units or _ISO_UNITS
     p, L = [float(v) for v in p], [float(v) for v in L]
     if branch == "ads":
         return pygaps.PointIsotherm(pressure=p, loading=L, branch="ads", material="m-0", adsorbate="N2", temperature=77.0,
-                                    **_ISO_UNITS)
+                                    **units)
     pa = [0.25 * p[0], 0.5 * p[0]]
     la = [0.0, 0.0]
     return pygaps.PointIsotherm(pressure=pa + p[::-1], loading=la + L[::-1], branch=[False] * 2 + [True] * len(p),
-                                material="m-0", adsorbate="N2", temperature=77.0, **_ISO_UNITS)
+                                material="m-0", adsorbate="N2", temperature=77.0, **units)
 
 
 def _limit_value(frac, P):
@@ -605,7 +606,21 @@ def check_limits(desc, ctx):
         ctx.label(_kernel_label(kd), "branch_" + branch, f"tail_{tail}",
                   "limits_" + ("none" if lo is None and hi is None else "lower" if hi is None else "upper" if lo is None
                                else "both"))
-        iso = _iso(P, L, branch)
+        # a user kernel may be tabulated against ABSOLUTE pressure in its own unit (kernel_units): read its pressure axis
+        # as kPa and store the isotherm in bar - the analysis has to convert (only for grids strictly inside the range, so
+        # that the decimal unit factor cannot push an end point across the kernel's limits)
+        foreign = (kd["kind"] == "user" and desc["rng"] % 3 == 0 and float(p_in.max()) < ref.pmax * (1 - 1e-9)
+                   and float(p_in.min()) > ref.pmin * (1 + 1e-9))
+        if foreign:
+            kwargs["kernel_units"] = dict(_KERNEL_UNITS, pressure_mode="absolute", pressure_unit="kPa")
+            ctx.label("kernel_in_absolute_kPa_isotherm_in_bar")
+
+        def mk_iso(pp, ll):
+            if foreign:
+                return _iso(np.asarray(pp, dtype=float) / 100.0, ll, branch,
+                            dict(_ISO_UNITS, pressure_mode="absolute", pressure_unit="bar"))
+            return _iso(pp, ll, branch)
+        iso = mk_iso(P, L)
         includes_tail = any(i >= n_in for i in inside)
 
         def run(isotherm, limits):
@@ -640,7 +655,7 @@ def check_limits(desc, ctx):
             raise Violation(f"{what}: pressure {float(P[inside[-1]])!r} above the kernel's last pressure {ref.pmax!r} was not "
                             f"refused (returned {len(res['kernel_loading'])} fitted points)", tag="range_not_refused")
         # regular case: >= 3 points, all inside the kernel range
-        sub = _iso(P[inside], L[inside], branch)
+        sub = mk_iso(P[inside], L[inside])
         try:
             res = run(iso, limits)
         except CalculationError as e:
@@ -685,7 +700,7 @@ def check_limits(desc, ctx):
                 shift = np.linspace(1.001, 1.5, N - k_hi)
                 P2[k_hi:] = np.maximum(P2[k_hi:], ref.pmax) * shift
             try:
-                res2 = run(_iso(P2, L2, branch), limits)
+                res2 = run(mk_iso(P2, L2), limits)
             except CalculationError as e:
                 raise Violation(f"{what}: after changing only points OUTSIDE the limits (pressures {P2[outside].tolist()[:6]}, "
                                 f"loadings {L2[outside].tolist()[:6]}) the call is refused: {e}", tag="limits_outside_influence")
